@@ -211,6 +211,8 @@ def run(ctx):
             run_h = lambda s, l: ctx.run([exe2, s, l, str(lb.CAP)], timeout=900)
             tcfg = ctx.write_cfg("Trace_LeakBlocks_noguard", lb.trace_cfg(K2, "TSpec", "INVARIANT TInv\nPOSTCONDITION Accepted"))
             pcfg = ctx.write_cfg("Predict_LeakBlocks_noguard", lb.trace_cfg(K2, "PSpec", "INVARIANT Predict"))
+        if (rp.get("meta") or {}).get("mode") == "ts":
+            run_h = lambda s, l: ctx.run([exe, s, l, str(lb.CAP), "ts"], timeout=900)
         conform(ctx, "replay", [ex], run_h, "Trace_LeakBlocks", tcfg, pcfg, lb.key_fn, meta=rp.get("meta"))
         return ctx.finish("replay of one recorded execution", 1)
 
@@ -272,6 +274,10 @@ def run(ctx):
     ctx.evaluations += sum(len(e) for e in rnd) + sum(len(e) for e in nf)
     distinct.update(json.dumps(e[:40]) for e in rnd)
     distinct.update(json.dumps(e) for e in nf)
+    # ---- the same calls through the thread-safe overloads (MemoryLeakWarningPlugin::turnOnThreadSafeNewDeleteOverloads): one meaning per
+    # operator form, whichever set of overloads is installed; and once more with detector period switches (disable / enable / startChecking) interleaved
+    ts = (bfs_execs if not quick else bfs_execs[::3]) + (sw if not quick else sw[::3]) + rnd[:max(2, len(rnd) // 2)]
+    lb.mode_legs(ctx, conform, exe, ts, tcfg, pcfg)
     # ---- the build without guard bytes: TLC's exhaustive behaviours, the sweeps (thorough: all; quick: every 4th) and random histories again
     exe2 = build_noguard(ctx)
     K2 = lb.constants(ctx, exe2)
@@ -299,6 +305,8 @@ def run(ctx):
                      "slot capacity are not generated (whether they fit depends on the bookkeeping overhead)",
                      "out-of-memory is simulated at the TestMemoryAllocator seam (an allocator returning NULL), as CppUTest does itself; the default allocator's "
                      "checkedMalloc turns a NULL from malloc into a test failure instead",
+                     "the TLC-generated behaviours, the sweeps and random histories are run a second time through the thread-safe operator new/delete overloads "
+                     "(single thread; the interleavings are C10's), and a third time with MemoryLeakDetector::disable / enable / startChecking calls interleaved",
                      "both layouts are built and run: with guard bytes (inline record for new/new[], separate record for malloc) and without "
                      "(CPPUTEST_DISABLE_MEM_CORRUPTION_CHECK: record always separate)",
                      "memory safety of the calls is observed by ASan/UBSan, the arena's red zones and the shadow copies, on the executions run"])
